@@ -141,7 +141,11 @@ func (vfs *MemFS) searchNode(path string, slMode slMode) (
 				}
 			}
 
-			if pi.ReplacePart(c.link) {
+			c.mu.RLock()
+			link := c.link
+			c.mu.RUnlock()
+
+			if pi.ReplacePart(link) {
 				parent = volNode
 			}
 		}
